@@ -9,7 +9,7 @@
 // (FAIL lines carry the complete failing case).
 //
 // Usage: c12_split quick|thorough        (everything derives from VERIF_SEED)
-//        c12_split replay < lines         (re-runs `KFOLD a | samples`, `RANDOM a | samples`, `SWOR/SWR/SWRW ...` lines)
+//        c12_split replay < lines         (re-runs `KFOLD a | samples`, `RANDOM a | samples`, `SWOR/SWR/SWRW ...`, `BALLX n,radius,state | x0` lines)
 #include "common.h"
 #include <nano/core/numeric.h>
 #include <nano/core/random.h>
@@ -296,12 +296,14 @@ static bool member(const ivec& sorted_input, const tensor_size_t x)
 }
 
 // sample_without_replacement(samples, count, rng); `rng` is advanced exactly like the implementation's generator
-static void run_swor(const ivec& samples, const tensor_size_t count, rng_t& rng, const int via, const indices_t* given = nullptr)
+static void run_swor(const ivec& samples, const tensor_size_t count, rng_t& rng, const int via, const indices_t* given = nullptr,
+                     std::string* oracle_out = nullptr)
 {
     const auto n     = static_cast<tensor_size_t>(samples.size());
     const auto state = rng_str(rng);
     auto       copy  = rng;
     const auto perm  = shuffle_perm(n, copy);
+    if (oracle_out != nullptr) *oracle_out = js(perm);
     indices_t  res;
     if (given != nullptr) { res = *given; rng = copy; }
     else
@@ -325,7 +327,8 @@ static void run_swor(const ivec& samples, const tensor_size_t count, rng_t& rng,
     }
 }
 
-static void run_swr(const ivec& samples, const tensor_size_t count, rng_t& rng, const int via, const indices_t* given = nullptr)
+static void run_swr(const ivec& samples, const tensor_size_t count, rng_t& rng, const int via, const indices_t* given = nullptr,
+                    std::string* oracle_out = nullptr)
 {
     const auto n     = static_cast<tensor_size_t>(samples.size());
     const auto state = rng_str(rng);
@@ -333,6 +336,7 @@ static void run_swr(const ivec& samples, const tensor_size_t count, rng_t& rng, 
     auto       udist = make_udist<tensor_size_t>(0, n - 1);
     ivec       picks(static_cast<size_t>(count));
     for (auto& p : picks) p = udist(copy);
+    if (oracle_out != nullptr) *oracle_out = js(picks);
     indices_t res;
     if (given != nullptr) { res = *given; rng = copy; }
     else
@@ -355,7 +359,7 @@ static void run_swr(const ivec& samples, const tensor_size_t count, rng_t& rng, 
 }
 
 static void run_swrw(const ivec& samples, const std::vector<double>& weights, const tensor_size_t count, rng_t& rng, const int via,
-                     const indices_t* given = nullptr)
+                     const indices_t* given = nullptr, std::string* oracle_out = nullptr)
 {
     const auto n     = static_cast<tensor_size_t>(samples.size());
     const auto state = rng_str(rng);
@@ -365,6 +369,7 @@ static void run_swrw(const ivec& samples, const std::vector<double>& weights, co
     auto wdist = std::discrete_distribution<tensor_size_t>(std::begin(w), std::end(w));
     ivec picks(static_cast<size_t>(count));
     for (auto& p : picks) p = wdist(copy);
+    if (oracle_out != nullptr) *oracle_out = js(picks);
     indices_t res;
     if (given != nullptr) { res = *given; rng = copy; }
     else
@@ -424,6 +429,80 @@ static std::vector<double> gen_weights(vh::rng_t& g, const tensor_size_t n)
     return w;
 }
 
+static std::string hexs(const double* p, const tensor_size_t n)
+{
+    std::string s;
+    for (tensor_size_t i = 0; i < n; ++i) s += (i ? "," : "") + vh::hexf(p[i]);
+    return s;
+}
+
+// one call of sample_from_ball(x0, radius, rng).
+// Extension: before the call the harness re-derives, on a copy of the generator, what the library draws (the same three
+// libstdc++ distributions constructed and called in the same order): the deviates u, the uniform value, z = pow(unif, 1/n)
+// (libm) and the norm |u|_2 (the same Eigen reduction on the same kind of map). These are the oracle inputs of the binary64
+// twin (BALLX line: the element-wise part is recomputed bit for bit by the extracted model). The direct oracle is the PROVED
+// bound of C12_fl_ball: |x - x0|_2 <= radius (1 + gamma_{n+5}) + 2^-53 |x0|_2, gamma_k = k u / (1 - k u), evaluated in long
+// double (relative slack 2^-60 for the evaluation itself).
+static void run_ball_case(const vector_t& x0, const double radius, rng_t& rng)
+{
+    const auto n     = x0.size();
+    const auto state = rng_str(rng);
+    // ---- oracle inputs -------------------------------------------------------------------------------------------------------
+    auto     copy = rng;
+    vector_t dev{n};
+    double   unif = 0.0, z = 0.0, nrm = 0.0;
+    {
+        auto sign_dist    = std::discrete_distribution({1, 1});
+        auto epsilon_dist = std::normal_distribution<scalar_t>{0.5, 2.0};
+        auto scale_dist   = std::uniform_real_distribution<scalar_t>(0.0, 1.0);
+        vector_map_t xm   = dev.tensor();
+        for (tensor_size_t k = 0; k < n; ++k) xm(k) = epsilon_dist(copy) * (sign_dist(copy) == 0 ? -1.0 : +1.0);
+        unif = scale_dist(copy);
+        z    = std::pow(unif, 1.0 / static_cast<scalar_t>(n));
+        nrm  = xm.lpNorm<2>();
+    }
+    const auto head = "BALLX " + std::to_string(n) + "," + vh::hexf(radius) + "," + state + " | " + hexs(x0.data(), n);
+    set_current(head);
+    // ---- the library ---------------------------------------------------------------------------------------------------------------
+    const auto x = sample_from_ball(x0, radius, rng);
+    long double d2 = 0.0L, n0 = 0.0L, su = 0.0L;
+    bool        finite = x.size() == n;
+    for (tensor_size_t i = 0; finite && i < n; ++i)
+    {
+        const long double d = static_cast<long double>(x(i)) - static_cast<long double>(x0(i));
+        d2 += d * d;
+        n0 += static_cast<long double>(x0(i)) * static_cast<long double>(x0(i));
+        su += static_cast<long double>(dev(i)) * static_cast<long double>(dev(i));
+        finite = finite && std::isfinite(x(i));
+    }
+    const long double dist  = std::sqrt(d2);
+    const long double u53   = std::ldexp(1.0L, -53);
+    const long double k     = static_cast<long double>(n + 5);
+    const long double gam   = k * u53 / (1.0L - k * u53);
+    const long double slack = 1.0L + std::ldexp(1.0L, -60);
+    const long double bound = (static_cast<long double>(radius) * (1.0L + gam) + u53 * std::sqrt(n0)) * slack;
+    const auto line = "BALL " + std::to_string(n) + "," + vh::hexf(radius) + "," + state + " | " + hexs(x0.data(), n) + " = " +
+                      vh::hexf(static_cast<double>(dist / static_cast<long double>(radius)));
+    emit(line);
+    ++g_lines;
+    const auto xline = head + " | " + hexs(dev.data(), n) + " | " + vh::hexf(z) + "," + vh::hexf(nrm) + "," + vh::hexf(unif) + " = " +
+                       (finite ? hexs(x.data(), n) : std::string("nonfinite"));
+    emit(xline);
+    ++g_lines;
+    if (!finite) fail("ball: non-finite or wrongly sized point", xline);
+    else if (dist > bound) fail("ball: point outside the proved ball radius (1 + gamma_{n+5}) + 2^-53 |x0|", xline);
+    if (!(rng == copy)) fail("ball: generator state after the call differs from n (normal, sign) draws + one uniform draw", xline);
+    // hypotheses of the theorem, on the observed values: libm's pow stays in [0, 1]; the norm is within the any-order bound
+    if (!(unif >= 0.0 && unif < 1.0)) fail("ball: uniform_real_distribution(0, 1) left [0, 1)", xline);
+    if (!(z >= 0.0 && z <= 1.0)) fail("ball: z = pow(unif, 1/n) outside [0, 1] (hypothesis of C12_fl_ball)", xline);
+    {
+        const long double gn    = std::pow(1.0L + u53, static_cast<long double>(n)) - 1.0L;
+        const long double lower = std::sqrt(su) * (1.0L - u53) * std::sqrt(1.0L - gn) / slack;
+        if (!(static_cast<long double>(nrm) >= lower) || !(nrm > 0.0))
+            fail("ball: lpNorm<2>() below the any-reduction-order bound sqrt(S) (1 - u) sqrt(1 - g_n) (hypothesis norm_lower)", xline);
+    }
+}
+
 static void run_ball(vh::rng_t& g, const tensor_size_t n, const double radius, const int x0kind, rng_t& rng)
 {
     vector_t x0(n);
@@ -434,31 +513,12 @@ static void run_ball(vh::rng_t& g, const tensor_size_t n, const double radius, c
         case 0: x0(i) = 0.0; break;
         case 1: x0(i) = (g.unit() - 0.5) * 2.0; break;
         case 2: x0(i) = (g.unit() - 0.5) * 2.0 * radius; break;
-        default: x0(i) = (g.unit() - 0.5) * 2000.0; break;
+        case 3: x0(i) = (g.unit() - 0.5) * 2000.0; break;
+        case 4: x0(i) = (g.unit() - 0.5) * 2e12 * radius; break;                                   // the 2^-53 |x0| term dominates
+        default: x0(i) = std::ldexp(g.unit() < 0.5 ? -1.0 : 1.0, static_cast<int>(g.range(-30, 30))); break; // mixed magnitudes
         }
     }
-    const auto state = rng_str(rng);
-    set_current("BALL " + std::to_string(n) + "," + vh::hexf(radius) + "," + state);
-    const auto x = sample_from_ball(x0, radius, rng);
-    long double d2 = 0.0L, n0 = 0.0L;
-    bool        finite = x.size() == n;
-    for (tensor_size_t i = 0; finite && i < n; ++i)
-    {
-        const long double d = static_cast<long double>(x(i)) - static_cast<long double>(x0(i));
-        d2 += d * d;
-        n0 += static_cast<long double>(x0(i)) * static_cast<long double>(x0(i));
-        finite = finite && std::isfinite(x(i));
-    }
-    const long double dist = std::sqrt(d2);
-    // x = fl(x0 + delta): each component carries a rounding error <= 2^-53 (|x0_i| + |delta_i|)
-    const long double bound = static_cast<long double>(radius) * (1.0L + 1e-12L) + std::ldexp(1.0L, -51) * std::sqrt(n0);
-    std::string xs;
-    for (tensor_size_t i = 0; i < n; ++i) xs += (i ? "," : "") + vh::hexf(x0(i));
-    const auto line = "BALL " + std::to_string(n) + "," + vh::hexf(radius) + "," + state + " | " + xs + " = " + vh::hexf(static_cast<double>(dist / static_cast<long double>(radius)));
-    emit(line);
-    ++g_lines;
-    if (!finite) fail("ball: non-finite or wrongly sized point", line);
-    else if (dist > bound) fail("ball: point outside the ball", line);
+    run_ball_case(x0, radius, rng);
 }
 
 // ---- gboost::sampler_t ---------------------------------------------------------------------------------------------
@@ -476,7 +536,8 @@ static void run_gboost(vh::rng_t& g, const tensor_size_t n, const gboost_subsamp
 
     gboost::sampler_t sampler(isamples, type, seed, ratio);
     auto              rng   = make_rng(seed);
-    const auto        count = static_cast<tensor_size_t>(ratio * static_cast<scalar_t>(n));
+    // coded independently of the library's expression: floor of the binary64 product
+    const auto        count = static_cast<tensor_size_t>(std::floor(ratio * static_cast<double>(n)));
 
     for (int round = 0; round < rounds; ++round)
     {
@@ -502,22 +563,23 @@ static void run_gboost(vh::rng_t& g, const tensor_size_t n, const gboost_subsamp
         }
         set_current("GBOOST mode=" + std::to_string(static_cast<int>(type)) + " seed=" + std::to_string(seed) + " ratio=" + vh::hexf(ratio) + " round=" + std::to_string(round) + " | " + js(samples));
         const auto res = sampler.sample(errors_losses, gradients);
+        std::string oracle;
         switch (type)
         {
-        case gboost_subsample::subsample: run_swor(samples, count, rng, 1, &res); break;
-        case gboost_subsample::bootstrap: run_swr(samples, count, rng, 1, &res); break;
+        case gboost_subsample::subsample: run_swor(samples, count, rng, 1, &res, &oracle); break;
+        case gboost_subsample::bootstrap: run_swr(samples, count, rng, 1, &res, &oracle); break;
         case gboost_subsample::wei_loss_bootstrap:
         {
             std::vector<double> w;
             for (const auto s : samples) w.push_back(wl[static_cast<size_t>(s)]);
-            run_swrw(samples, w, count, rng, 1, &res);
+            run_swrw(samples, w, count, rng, 1, &res, &oracle);
             break;
         }
         case gboost_subsample::wei_grad_bootstrap:
         {
             std::vector<double> w;
             for (const auto s : samples) w.push_back(wg[static_cast<size_t>(s)]);
-            run_swrw(samples, w, count, rng, 1, &res);
+            run_swrw(samples, w, count, rng, 1, &res, &oracle);
             break;
         }
         default:
@@ -528,6 +590,17 @@ static void run_gboost(vh::rng_t& g, const tensor_size_t n, const gboost_subsamp
             if (to_vec(res) != samples) fail("gboost sampler off: result differs from the training samples", line);
             break;
         }
+        }
+        // the whole call for the model of gboost::sampler_t (dispatch, count, weights): GBS kind,seed,ratio,round | samples |
+        // losses (row 1 of errors_losses, by sample index) | gradient magnitudes (by sample index) | oracle answer = result
+        {
+            const auto gline = "GBS " + std::to_string(static_cast<int>(type)) + "," + std::to_string(seed) + "," + vh::hexf(ratio) + "," +
+                               std::to_string(round) + " | " + js(samples) + " | " + hexs(wl.data(), total) + " | " + hexs(wg.data(), total) +
+                               " | " + oracle + " = " + js(res);
+            emit(gline);
+            ++g_lines;
+            if (type != gboost_subsample::off && static_cast<tensor_size_t>(res.size()) != count)
+                fail("gboost sampler: number of returned samples != floor(ratio * n)", gline);
         }
     }
 }
@@ -583,6 +656,15 @@ static int replay()
             auto rng = rng_from(args[2]);
             if (op == "SWOR") run_swor(parse_ints(f[1]), std::stoll(args[0]), rng, 0);
             else run_swr(parse_ints(f[1]), std::stoll(args[0]), rng, 0);
+        }
+        else if ((op == "BALL" || op == "BALLX") && args.size() >= 3)
+        {
+            auto     rng = rng_from(args[2]);
+            std::vector<double> c;
+            for (const auto& t : vh::split(f[1], ',')) c.push_back(vh::parsef(t.substr(t.find_first_not_of(' '))));
+            vector_t x0(static_cast<tensor_size_t>(c.size()));
+            for (size_t i = 0; i < c.size(); ++i) x0(static_cast<tensor_size_t>(i)) = c[i];
+            run_ball_case(x0, vh::parsef(args[1]), rng);
         }
         else if (op == "SWRW" && args.size() >= 3 && f.size() >= 3)
         {
@@ -730,12 +812,21 @@ int main(int argc, char** argv)
         // gboost::sampler_t: every mode, ratios over (0, 1], several rounds on the same generator
         const gboost_subsample types[] = {gboost_subsample::off, gboost_subsample::subsample, gboost_subsample::bootstrap,
                                           gboost_subsample::wei_loss_bootstrap, gboost_subsample::wei_grad_bootstrap};
-        const double ratios[] = {0.05, 0.1, 0.25, 0.3, 0.5, 0.7, 0.9, 0.99, 1.0};
-        const int    gcases   = thorough ? 400 : 80;
+        // dyadic ratios (count proved = k n / 2^j), decimal ones (the count follows the rounded binary64 product: 0.29 * 100 -> 28,
+        // 0.7 * 10 -> 7, 0.57 * 100 -> 56), the ends of the parameter range (0, 1]
+        const double ratios[] = {0.05, 0.1, 0.25, 0.3, 0.5, 0.7, 0.9, 0.99, 1.0, 0.29, 0.57, 0.58, 0.125, 0.75, 0.0625, 1e-3,
+                                 1.0 - std::ldexp(1.0, -53), std::ldexp(1.0, -40), 0.35, 0.15};
+        const int    nratios  = static_cast<int>(sizeof(ratios) / sizeof(ratios[0]));
+        const int    gcases   = thorough ? 600 : 120;
+        emit("GBKINDS " + std::to_string(static_cast<int>(gboost_subsample::off)) + "," + std::to_string(static_cast<int>(gboost_subsample::subsample)) + "," +
+             std::to_string(static_cast<int>(gboost_subsample::bootstrap)) + "," + std::to_string(static_cast<int>(gboost_subsample::wei_loss_bootstrap)) + "," +
+             std::to_string(static_cast<int>(gboost_subsample::wei_grad_bootstrap)) + " = 5");
         for (int c = 0; c < gcases; ++c)
         {
-            const auto n = g.unit() < 0.7 ? g.range(1, 40) : g.range(41, 600);
-            run_gboost(g, n, types[c % 5], static_cast<uint64_t>(g.range(0, 1024)), ratios[static_cast<size_t>(g.range(0, 8))], 3);
+            // sizes where ratio * n sits next to an integer (multiples of 10 / 100 / powers of two), small and larger ones
+            const auto v = g.unit();
+            const auto n = v < 0.25 ? 10 * g.range(1, 60) : v < 0.35 ? (tensor_size_t{1} << g.range(0, 9)) : v < 0.8 ? g.range(1, 40) : g.range(41, 600);
+            run_gboost(g, n, types[c % 5], static_cast<uint64_t>(g.range(0, 1024)), ratios[static_cast<size_t>(g.range(0, nratios - 1))], 3);
         }
     }
 
@@ -747,7 +838,7 @@ int main(int argc, char** argv)
         {
             const auto n      = c < 50 ? static_cast<tensor_size_t>(c + 1) : g.range(1, 50);
             const auto radius = (c % 7 == 0) ? (c % 14 == 0 ? 1e-6 : 1e6) : std::pow(10.0, -6.0 + 12.0 * g.unit());
-            run_ball(g, n, radius, static_cast<int>(g.range(0, 3)), rng);
+            run_ball(g, n, radius, static_cast<int>(g.range(0, 5)), rng);
         }
     }
 
